@@ -12,6 +12,7 @@ Directives
   //@ serves C01 C02 ...
   //@ tags C01 ...                  default tags of following literal text
   //@ include REL/PATH              literal include (relative to contracts/)
+  //@ modelops GROUP                `broadcast use GROUP;` at the start of every extracted fn body and loop body
   //@ extract FILE SELECTOR         start of an extract block (see rustlex.find_item)
   //@   id LABEL                    name used in obligation ids (default from selector)
   //@   tags C01 ...                properties whose obligations this item carries
@@ -114,7 +115,7 @@ def _parse_file(path, nodes, meta, deftags):
                     meta['serves'] = arg.split()
                 elif word == 'tags':
                     tags = arg.split()
-                elif word in ('rlimit', 'tier'):
+                elif word in ('rlimit', 'tier', 'modelops'):
                     meta[word] = arg
                 elif word == 'include':
                     _parse_file(os.path.join(CONTRACTS, arg), nodes, meta, tags)
@@ -126,6 +127,7 @@ def _parse_file(path, nodes, meta, deftags):
                     f, sel = arg.split(None, 1)
                     cur = Item(meta['unit'], f, sel.strip(), ln)
                     cur.alt = alt
+                    cur.modelops = meta.get('modelops')
                     cur.tags = list(tags)
                     cur.upath = path
                     curblock = None
@@ -631,6 +633,15 @@ def render_item(item, repo=None, vac=False, variant=None):
     order = 0
     body_open = _body_open(text, mk) if re.search(r'\bfn\b', text) else None
     loops = None
+    mo = getattr(item, 'modelops', None)
+    if mo and body_open is not None and text[body_open] == '{' and re.match(r'\s*(pub(\([^)]*\))?\s+)?fn\b', text):
+        # //@ modelops GROUP: the unit's axioms about operators of modelled std types (==, <, clone ...) are in scope in every
+        # extracted function body and loop body, so that a change which starts to use such an operator is decided, not unconstrained
+        org = {'k': 'spl', 'item': item.id, 'uline': item.uline, 'upath': item.upath, 'tags': item.tags, 'label': None, 'unit': item.unit, 'file': item.file}
+        inserts.append((body_open + 1, -1, [('broadcast use %s;' % mo, org)]))
+        for lp in rl.find_loops(text, mk):
+            if text[lp[1]] == '{':
+                inserts.append((lp[1] + 1, -1, [('broadcast use %s;' % mo, dict(org))]))
     for kind, arg, blines in item.blocks:
         order += 1
         lab = _label_lines(blines, item)
